@@ -147,6 +147,9 @@ pub struct Contents {
     pub len: usize,
     pub range_len: usize,
     pub extents: Vec<(u64, u64)>,
+    /// memory_usage() right after recovery and the sum the recovered records account for
+    pub memory_usage: usize,
+    pub memory_expected: usize,
 }
 
 pub struct Opened {
@@ -197,6 +200,8 @@ pub fn open_image(img: &[u8], cfg: &Config, now: u64, record: bool, want_post: b
         extents.push((r.sector, layout::record_blocks(snap.format_version, r.key.len(), r.value_len) as u64));
     }
     let len = store.len();
+    let memory_usage = store.memory_usage();
+    let memory_expected: usize = snap.records.iter().map(|r| seq::rec_overhead() + r.key.len() + r.value_len).sum();
     let range_len = {
         let _g = env::watch("image range");
         store.range_query(b"", &[0xff; 4100], usize::MAX).map(|p| p.len()).unwrap_or(usize::MAX)
@@ -210,13 +215,16 @@ pub fn open_image(img: &[u8], cfg: &Config, now: u64, record: bool, want_post: b
     if records != len {
         return Err(format!("len-mismatch: len()={len} but {records} records are indexed"));
     }
-    Ok(Opened { contents: Contents { map, len, range_len, extents }, recovery_entries, post_image })
+    Ok(Opened { contents: Contents { map, len, range_len, extents, memory_usage, memory_expected }, recovery_entries, post_image })
 }
 
 // ------------------------------------------------------------------------------------------
 // windows
 // ------------------------------------------------------------------------------------------
 
+pub const FAR_FUTURE: u64 = 400 * 24 * 3600 * 1_000_000_000;
+
+#[derive(Clone)]
 pub struct PointInfo {
     pub begun: i64,
     pub acked: i64,
@@ -516,17 +524,43 @@ pub fn explore(run: &WorkloadRun, case: &Case, which: &str, budget: &Budget, sta
                 stats.hit("image.torn");
             }
             let want_c04 = which == "C04" && image_no % budget.c04_every == 0;
+            // a third of the images is recovered much later than the crash: every TTL has passed
+            // (an expired newest generation next to an older one must not resurrect the older one)
+            let mut info = info.clone();
+            if run.cfg.ttl && image_no % 3 == 0 {
+                info.now = info.now.saturating_add(FAR_FUTURE);
+                stats.hit("image.recovered_after_all_ttls_passed");
+            }
             let opened = open_image(&img, &run.cfg, info.now, want_c04, want_c04);
             match opened {
                 Err(e) => {
                     let sig = if e.starts_with("len-mismatch") { "len-mismatch".to_string() } else { format!("open-failed:{}", e.split(':').next().unwrap_or("?")) };
                     stats.hit("open_failed");
-                    if which != "C04" {
+                    if which != "C04" && which != "C13" {
                         return Some(CrashFailure { property_hint: "C03", signature: sig, msg: format!("crash image cannot be reopened: {e}"), spec, nested: vec![] });
                     }
                 }
                 Ok(o) => {
-                    if which != "C04" {
+                    if which == "C13" {
+                        if o.contents.memory_usage != o.contents.memory_expected {
+                            let dup = o.recovery_entries.len();
+                            let _ = dup;
+                            return Some(CrashFailure {
+                                property_hint: "C13",
+                                signature: "memory-accounting-after-recovery".into(),
+                                msg: format!("after recovering a crash image memory_usage()={} but the {} recovered records sum to {} bytes", o.contents.memory_usage, o.contents.len, o.contents.memory_expected),
+                                spec,
+                                nested: vec![],
+                            });
+                        }
+                        // non-trivial: the image held more than one generation of some key
+                        if let Ok(dec) = layout::decode_image(&img) {
+                            if dec.all_records.len() > dec.live.len() {
+                                stats.nontrivial_c04.insert(fp);
+                                stats.hit("c13.image_with_duplicate_generations");
+                            }
+                        }
+                    } else if which != "C04" {
                         if let Err(v) = judge(run, &o.contents, &info) {
                             return Some(CrashFailure { property_hint: if v.signature == "older-than-acked" { "C02" } else { "C03" }, signature: v.signature, msg: v.msg, spec, nested: vec![] });
                         }
@@ -555,7 +589,7 @@ pub fn explore(run: &WorkloadRun, case: &Case, which: &str, budget: &Budget, sta
 
 /// C04 for one image whose first recovery produced `first`.
 #[allow(clippy::too_many_arguments)]
-fn check_recovery(cfg: &Config, img: &[u8], first: &Opened, now: u64, depth: usize, stats: &mut CrashStats, spec: &ImageSpec, rng: &mut u64, budget: &Budget, nested_left: &mut usize) -> Option<CrashFailure> {
+pub fn check_recovery(cfg: &Config, img: &[u8], first: &Opened, now: u64, depth: usize, stats: &mut CrashStats, spec: &ImageSpec, rng: &mut u64, budget: &Budget, nested_left: &mut usize) -> Option<CrashFailure> {
     let c1 = &first.contents;
     // (c) repairs never touch a block of a live record, stay inside the device
     for e in &first.recovery_entries {
